@@ -18,15 +18,15 @@ res = {"property": pid, "mutation": k}
 try:
     demo = os.path.join(sdir, "m%s_demo.py" % k)
     diff = os.path.join(sdir, "m%s.diff" % k)
-    shutil.copy(demo, wt + "/_demo.py")
+    shutil.copy(demo, wt + "/" + os.path.basename(demo))      # some demos import themselves by name
     fast = os.environ.get("TRY_FAST") == "1"      # re-trial after strengthening: demo/tests already confirmed
     if not fast:
-        d0 = sh("cd %s && /venv/bin/python _demo.py" % wt, env=env, timeout=600)
+        d0 = sh("cd %s && /venv/bin/python %s" % (wt, os.path.basename(demo)), env=env, timeout=600)
         res["demo_without"] = d0.returncode
     a = sh("git -C %s apply %s" % (wt, diff))
     assert a.returncode == 0, a.stderr
     if not fast:
-        d1 = sh("cd %s && /venv/bin/python _demo.py" % wt, env=env, timeout=600)
+        d1 = sh("cd %s && /venv/bin/python %s" % (wt, os.path.basename(demo)), env=env, timeout=600)
         res["demo_with"] = d1.returncode
         res["demo_with_tail"] = (d1.stdout + d1.stderr)[-300:]
         t = sh("cd %s && /venv/bin/python -m pytest -q -p no:cacheprovider --timeout=900 2>&1 | tail -1" % wt, env=env)
